@@ -241,7 +241,22 @@ pub trait ProtoRead {
 
     fn read_bit_vec(&mut self) -> Result<BitVec, Error> {
         let bytes = self.read_bytes()?;
-        Ok(BitVec::from_vec_with_trailing_bit_len(bytes))
+        // protobuf does not serialize null or 0-ish values
+        if bytes.is_empty() {
+            return Ok(BitVec::default());
+        }
+        // the trailing 8 bytes carry the bit length, which has to fit the bytes in front of it
+        let lengths = bytes.len().checked_sub(8).map(|data_len| {
+            let mut buffer = [0u8; 8];
+            buffer.copy_from_slice(&bytes[data_len..]);
+            (data_len as u64 * 8, u64::from_be_bytes(buffer))
+        });
+        match lengths {
+            Some((data_bits, bit_len)) if bit_len <= data_bits => {
+                Ok(BitVec::from_vec_with_trailing_bit_len(bytes))
+            }
+            _ => Err(IoError::from(std::io::ErrorKind::UnexpectedEof).into()),
+        }
     }
 
     fn read_tag(&mut self) -> Result<(u32, Format), Error> {
